@@ -241,7 +241,9 @@ def c05_streams(tier, rng, ctx):
     if tier == "quick":
         strs = list(all_strings(alpha, 4)) + rng.sample(strs, 8000)
     extra = ["file://a", "FILE:///a/b", "http://x/../y", "ftp://", "https://é", "file:/a", "a//b", "~/a/..", "~/../..", "$V/x", "${V}/../y", "x/$V",
-             "../../../..", "./.", "a/./../b/", "////", "..", "../a", "a/../../b"]
+             "../../../..", "./.", "a/./../b/", "////", "..", "../a", "a/../../b",
+             # a scheme prefix together with an expansion, in the text and in a variable's value (P = file:///foo/bar): expansion comes first, then the prefix goes
+             "file://~/foo", "ftp://~", "HTTPS://~/a/../b", "file://$V", "file://$V/x", "http://${V}", "$P", "$P/x", "${P}/../y", "~/$P", "x/$P", "file://$P"]
     strs += extra
     base = os.path.join(ctx["work"], "..", "..", "sb", "c05")
     base = os.path.normpath(base)
@@ -249,14 +251,14 @@ def c05_streams(tier, rng, ctx):
     sts = []
     homes = ["/home/u", None, "/a/b"] if tier == "quick" else ["/home/u", None, "/a/b", "", "rel"]
     for hi, home in enumerate(homes):
-        env = {"HOME": home, "V": "/abs/x" if hi == 0 else "v"}
+        env = {"HOME": home, "V": "/abs/x" if hi == 0 else "v", "P": "file:///foo/bar"}
         es = envspec(env)
-        impl_env = {"HOME": home, "V": env["V"], "W": None}
+        impl_env = {"HOME": home, "V": env["V"], "P": env["P"], "W": None}
         lm = ["\t".join(["abs_m", es, hx(c), hx(s)]) for c in cwds for s in strs]
         sts.append(Stream("abs-memfs-h%d" % hi, "mirror", lm, judge=lambda l, o: True, impl_env=impl_env, exhaustive=True,
                           nontrivial=lambda l, o: o.startswith("S:") and o[2:] != l.split("\t")[3],
                           rule="Memfs::abs vs mirror: strings over %s x cwds %s, HOME=%r" % ("".join(alpha), cwds, home)))
-        ls = ["\t".join(["abs_s", es, hx(base + (c if c != "/" else "")), hx(s)]) for c in cwds for s in rng.sample(strs, min(len(strs), 3000))]
+        ls = ["\t".join(["abs_s", es, hx(base + (c if c != "/" else "")), hx(s)]) for c in cwds for s in rng.sample(strs, min(len(strs), 3000)) + extra]
         sts.append(Stream("abs-stdfs-h%d" % hi, "mirror", ls, judge=lambda l, o: True, impl_env=impl_env,
                           rule="Stdfs::abs (process cwd set inside a sandbox) vs the same mirror"))
     return sts
